@@ -2,13 +2,13 @@
    to the model's answer and, where the property has an executable spec, the spec's answer.
    Extracted to OCaml; the hand-written driver only parses and prints tokens. *)
 From Coq Require Import ZArith Bool List String.
-From HF Require Import MachInt Outcome GenConsts Duration SignedNs.
+From HF Require Import MachInt Outcome GenConsts GenLeap Duration Epoch Gregorian TimeSeries SignedNs Civil LeapSpec.
 Import ListNotations.
 Open Scope Z_scope.
 
 (* TNoSpec: the spec leaves this position (or the whole answer) open; TSign b: any integer that is
    negative (b = true) / non-negative (b = false) *)
-Inductive tok := TZ (z : Z) | TL (l : list Z) | TPanic | TErr (k : Z) | TNoSpec | TSign (neg : bool).
+Inductive tok := TZ (z : Z) | TL (l : list Z) | TPanic | TErr (k : Z) | TNoSpec | TSign (neg : bool) | TErrAny.
 
 Definition tb (b : bool) : tok := TZ (if b then 1 else 0).
 Definition tcmp (c : comparison) : tok := TZ (match c with Lt => -1 | Eq => 0 | Gt => 1 end).
@@ -100,8 +100,208 @@ Definition dispatch_duration (name : string) (a : list tok) : option (list tok *
   | _, _ => None
   end.
 
+(* ------------------------------------------------------------------ epochs ---- *)
+Definition mk_epoch (c n t : Z) : epoch := mkE (from_parts c n) (ts_of_Z t).
+Definition tepoch (e : epoch) : list tok := [TZ (centuries (dur e)); TZ (nanoseconds (dur e)); TZ (ts_id (scale e))].
+Definition topt {A} (f : A -> list tok) (o : option A) : list tok := match o with Some x => f x | None => nospec end.
+Definition in_rangev (z : Z) : bool := (MINV <=? z) && (z <=? MAXV).
+(* spec value -> tokens, open when a bound is hit *)
+Definition sdur_exact (z : Z) : list tok := if in_rangev z then sdur z else nospec.
+
+(* TAI instant of (scale id, clamped count); None for ET/TDB or when the TAI count leaves the range *)
+Definition sinstant (t v : Z) : option Z :=
+  match spec_instant t v with Some i => if in_rangev i then Some i else None | None => None end.
+(* count of that instant in scale t2; None when open (gap of UTC, float scale, out of range) *)
+Definition scount (i t2 : Z) : option Z :=
+  let r := if t2 =? 4 then (if in_gap i then None else Some (spec_tai2utc i))
+           else option_map (fun z => i - z) (spec_scale_zero_tai t2) in
+  match r with Some z => if in_rangev z then Some z else None | None => None end.
+Definition sconv (t1 v t2 : Z) : option Z :=
+  if t1 =? t2 then Some v else match sinstant t1 v with Some i => scount i t2 | None => None end.
+Definition norm_ts (t : Z) : Z := ts_id (ts_of_Z t).
+
+Definition sweekday_tai (t v : Z) : option Z := option_map (fun i => weekday_of_day (i / NS_PER_DAY)) (sinstant t v).
+
+Fixpoint spec_series (n : nat) (j : Z) (start step span : Z) (incl : bool) (t : Z) : list tok :=
+  match n with
+  | O => []
+  | S n' =>
+      (if (if incl then j * step <=? span else j * step <? span)
+       then TZ 1 :: sdur (start + j * step) ++ [TZ t] else [TZ 0]) ++ spec_series n' (j + 1) start step span incl t
+  end.
+Fixpoint model_series (l : list (option epoch)) : list tok :=
+  match l with [] => [] | Some e :: r => TZ 1 :: tepoch e ++ model_series r | None :: r => TZ 0 :: model_series r end.
+
+Definition dispatch_epoch (name : string) (a : list tok) : option (list tok * list tok) :=
+  match name, a with
+  | "conv"%string, [TZ c; TZ n; TZ t1; TZ t2] =>
+      let t1 := norm_ts t1 in let t2 := norm_ts t2 in
+      Some (topt tepoch (to_time_scale (mk_epoch c n t1) (ts_of_Z t2)),
+            match sconv t1 (pval c n) t2 with Some z => sdur z ++ [TZ t2] | None => nospec end)
+  | "eadd"%string, [TZ c; TZ n; TZ t; TZ c2; TZ n2] =>
+      Some (tepoch (epoch_add (mk_epoch c n t) (from_parts c2 n2)), sdur (spec_add (pval c n) (pval c2 n2)) ++ [TZ (norm_ts t)])
+  | "esub"%string, [TZ c; TZ n; TZ t; TZ c2; TZ n2] =>
+      Some (tepoch (epoch_sub (mk_epoch c n t) (from_parts c2 n2)), sdur (spec_sub (pval c n) (pval c2 n2)) ++ [TZ (norm_ts t)])
+  | "eadd_unit"%string, [TZ c; TZ n; TZ t; TZ u] =>
+      Some (tepoch (epoch_add_unit (mk_epoch c n t) (unit_of_Z u)), sdur (spec_add (pval c n) (suf u)) ++ [TZ (norm_ts t)])
+  | "esub_unit"%string, [TZ c; TZ n; TZ t; TZ u] =>
+      Some (tepoch (epoch_sub_unit (mk_epoch c n t) (unit_of_Z u)), sdur (spec_sub (pval c n) (suf u)) ++ [TZ (norm_ts t)])
+  | "ediff"%string, [TZ c1; TZ n1; TZ t1; TZ c2; TZ n2; TZ t2] =>
+      let t1 := norm_ts t1 in let t2 := norm_ts t2 in
+      Some (topt tdur (epoch_diff (mk_epoch c1 n1 t1) (mk_epoch c2 n2 t2)),
+            match sconv t2 (pval c2 n2) t1 with Some z => sdur_exact (pval c1 n1 - z) | None => nospec end)
+  | "ecmp"%string, [TZ c1; TZ n1; TZ t1; TZ c2; TZ n2; TZ t2] =>
+      let t1 := norm_ts t1 in let t2 := norm_ts t2 in
+      Some (topt (fun x => [tcmp x]) (epoch_cmp (mk_epoch c1 n1 t1) (mk_epoch c2 n2 t2)),
+            if t1 =? t2 then [tcmp (Z.compare (pval c1 n1) (pval c2 n2))]
+            else match sinstant t1 (pval c1 n1), sinstant t2 (pval c2 n2) with
+                 | Some i, Some j => [tcmp (Z.compare i j)] | _, _ => nospec end)
+  | "eeq"%string, [TZ c1; TZ n1; TZ t1; TZ c2; TZ n2; TZ t2] =>
+      let t1 := norm_ts t1 in let t2 := norm_ts t2 in
+      Some (topt (fun x => [tb x]) (epoch_eqb (mk_epoch c1 n1 t1) (mk_epoch c2 n2 t2)),
+            if t1 =? t2 then [tb (pval c1 n1 =? pval c2 n2)]
+            else match sinstant t1 (pval c1 n1), sinstant t2 (pval c2 n2) with
+                 | Some i, Some j => [tb (i =? j)] | _, _ => nospec end)
+  | "emin"%string, [TZ c1; TZ n1; TZ t1; TZ c2; TZ n2; TZ t2] =>
+      Some (topt tepoch (epoch_min (mk_epoch c1 n1 t1) (mk_epoch c2 n2 t2)), nospec)
+  | "emax"%string, [TZ c1; TZ n1; TZ t1; TZ c2; TZ n2; TZ t2] =>
+      Some (topt tepoch (epoch_max (mk_epoch c1 n1 t1) (mk_epoch c2 n2 t2)), nospec)
+  | "leap"%string, [TZ c; TZ n; TZ t] =>
+      (* Epoch::leap_seconds_iers of an epoch: table lookup at its TAI duration *)
+      let t := norm_ts t in
+      Some (match to_tai_duration (mk_epoch c n t) with Some d => [TZ (opt_or0 (leap_seconds_iers d))] | None => nospec end,
+            match sinstant t (pval c n) with Some i => [TZ (spec_delta_utc i)] | None => nospec end)
+  | "tow_build"%string, [TZ w; TZ ns; TZ t] =>
+      Some (tepoch (from_time_of_week w ns (ts_of_Z t)), sdur (clamp (w * 7 * NS_PER_DAY + ns)) ++ [TZ (norm_ts t)])
+  | "tow_split"%string, [TZ c; TZ n; TZ t] =>
+      let v := pval c n in
+      Some (let '(w, r) := to_time_of_week (mk_epoch c n t) in [TZ w; TZ r],
+            if 0 <=? v then [TZ (v / (7 * NS_PER_DAY)); TZ (v mod (7 * NS_PER_DAY))] else nospec)
+  | "from_ns"%string, [TZ n; TZ t] =>
+      Some (tepoch (from_nanoseconds_in n (ts_of_Z t)), sdur (clamp n) ++ [TZ (norm_ts t)])
+  | "to_ns"%string, [TZ c; TZ n; TZ t1; TZ t2] =>
+      let t1 := norm_ts t1 in let t2 := norm_ts t2 in
+      Some (match to_nanoseconds_in_time_scale (mk_epoch c n t1) (ts_of_Z t2) with
+            | Some (Some z) => [TZ 1; TZ z] | Some None => [TZ 0] | None => nospec end,
+            match sconv t1 (pval c n) t2 with
+            | Some z => if (0 <=? z) && (z <? SNPC) then [TZ 1; TZ z] else [TZ 0]
+            | None => nospec end)
+  | "to_bdt"%string, [TZ c; TZ n; TZ t1] =>
+      let t1 := norm_ts t1 in
+      Some (topt tdur (to_bdt_duration (mk_epoch c n t1)),
+            match sconv t1 (pval c n) 7 with Some z => sdur z | None => nospec end)
+  | "efloor"%string, [TZ c; TZ n; TZ t; TZ c2; TZ n2] =>
+      Some (tepoch (epoch_floor (mk_epoch c n t) (from_parts c2 n2)), sdur (spec_floor (pval c n) (pval c2 n2)) ++ [TZ (norm_ts t)])
+  | "eceil"%string, [TZ c; TZ n; TZ t; TZ c2; TZ n2] =>
+      Some (tepoch (epoch_ceil (mk_epoch c n t) (from_parts c2 n2)),
+            if floor_saturates (pval c n) (pval c2 n2) then nospec else sdur (spec_ceil (pval c n) (pval c2 n2)) ++ [TZ (norm_ts t)])
+  | "eround"%string, [TZ c; TZ n; TZ t; TZ c2; TZ n2] =>
+      Some (tepoch (epoch_round (mk_epoch c n t) (from_parts c2 n2)),
+            if floor_saturates (pval c n) (pval c2 n2) || ceil_saturates (pval c n) (pval c2 n2) then nospec
+            else sdur (spec_round (pval c n) (pval c2 n2)) ++ [TZ (norm_ts t)])
+  | "tseries"%string, [TZ c1; TZ n1; TZ t1; TZ c2; TZ n2; TZ t2; TZ sc; TZ sn; TZ incl; TZ count] =>
+      let t1 := norm_ts t1 in let t2 := norm_ts t2 in
+      let cnt := Z.to_nat count in
+      let step := pval sc sn in
+      Some (match ts_new (mk_epoch c1 n1 t1) (mk_epoch c2 n2 t2) (from_parts sc sn) (negb (incl =? 0)) with
+            | Some s => model_series (fst (ts_run cnt s)) | None => nospec end,
+            (* span = end - start, measured in the scale of the left operand (end), C04 *)
+            match sconv t1 (pval c1 n1) t2 with
+            | Some sv =>
+                let span := pval c2 n2 - sv in
+                if (0 <? step) && (0 <=? span) && in_rangev span && in_rangev (pval c1 n1 + span) && (count * step <? MAXV)
+                then spec_series cnt 0 (pval c1 n1) step span (negb (incl =? 0)) t1 else nospec
+            | None => nospec end)
+  | _, _ => None
+  end.
+
+(* ------------------------------------------------------------------ calendar ---- *)
+Definition spec_valid (y m d h mi s ns : Z) : option bool :=
+  (* Some true = must be accepted, Some false = must be rejected, None = the property leaves it open *)
+  if (m =? 0) || (12 <? m) || (d =? 0) || (mlen y m <? d) || (24 <? h) || (59 <? mi) || (60 <? s) || (NS_PER_S <? ns) then Some false
+  else if (s =? 60) && negb ((h =? 23) && (mi =? 59) && leap_second_day y m d) then Some false
+  else if (h =? 24) || (ns =? NS_PER_S) then None
+  else Some true.
+
+Definition dispatch_calendar (name : string) (a : list tok) : option (list tok * list tok) :=
+  match name, a with
+  | "is_valid"%string, [TZ y; TZ m; TZ d; TZ h; TZ mi; TZ s; TZ ns] =>
+      Some ([tb (is_gregorian_valid y m d h mi s ns)],
+            match spec_valid y m d h mi s ns with Some b => [tb b] | None => nospec end)
+  | "from_greg"%string, [TZ y; TZ m; TZ d; TZ h; TZ mi; TZ s; TZ ns; TZ t] =>
+      let t := norm_ts t in
+      Some (match maybe_from_gregorian y m d h mi s ns (ts_of_Z t) with
+            | inl e => TZ 1 :: tepoch e
+            | inr InvalidGregorianDate => [TErr 1] | inr DurUnderflow => [TErr 2] | inr DurOverflow => [TErr 3] end,
+            match spec_valid y m d h mi s ns with
+            | Some false => [TErrAny]
+            | Some true =>
+                if s =? 60 then [TZ 1; TNoSpec; TNoSpec; TZ t]
+                else let v := civil_ns y m d h mi s ns - spec_gregorian_zero t in
+                     if in_rangev v && (Z.abs (y - 1900) <? 5000000) then TZ 1 :: sdur v ++ [TZ t] else nospec
+            | None => nospec end)
+  | "to_greg"%string, [TZ c; TZ n; TZ t] =>
+      let t := norm_ts t in
+      Some (let '(y, m, d, h, mi, s, ns) := compute_gregorian (from_parts c n) (ts_of_Z t) in
+            [TZ y; TZ m; TZ d; TZ h; TZ mi; TZ s; TZ ns],
+            let w := pval c n + spec_gregorian_zero t in
+            if in_rangev w then
+              let '(y, m, d) := civil_of_days (w / NS_PER_DAY) in
+              let r := w mod NS_PER_DAY in
+              [TZ y; TZ m; TZ d; TZ (r / (3600 * NS_PER_S)); TZ (r / (60 * NS_PER_S) mod 60); TZ (r / NS_PER_S mod 60); TZ (r mod NS_PER_S)]
+            else nospec)
+  | "doy_int"%string, [TZ c; TZ n; TZ t] =>
+      let t := norm_ts t in
+      Some (topt (fun z => [TZ z]) (day_of_year_integer (mk_epoch c n t)),
+            let w := pval c n + spec_gregorian_zero t in
+            if in_rangev w then
+              let '(y, _, _) := civil_of_days (w / NS_PER_DAY) in [TZ (w / NS_PER_DAY - civil_days y 1 1 + 1)]
+            else nospec)
+  | "weekday"%string, [TZ c; TZ n; TZ t] =>
+      let t := norm_ts t in
+      Some (topt (fun z => [TZ z]) (weekday (mk_epoch c n t)), topt (fun z => [TZ z]) (sweekday_tai t (pval c n)))
+  | "weekday_utc"%string, [TZ c; TZ n; TZ t] =>
+      let t := norm_ts t in
+      Some (topt (fun z => [TZ z]) (weekday_utc (mk_epoch c n t)),
+            match sconv t (pval c n) 4 with Some u => [TZ (weekday_of_day (u / NS_PER_DAY))] | None => nospec end)
+  | "next"%string, [TZ c; TZ n; TZ t; TZ w] =>
+      let t := norm_ts t in let w := w mod 7 in let v := pval c n in
+      Some (topt tepoch (epoch_next (mk_epoch c n t) w),
+            match sweekday_tai t v with
+            | Some wd => let k := (w - wd - 1) mod 7 + 1 in
+                         let r := v + k * NS_PER_DAY in
+                         if negb (in_rangev r) then nospec
+                         else if (t =? 4) && negb (spec_delta_utc v =? spec_delta_utc r) then nospec
+                         else sdur r ++ [TZ t]
+            | None => nospec end)
+  | "prev"%string, [TZ c; TZ n; TZ t; TZ w] =>
+      let t := norm_ts t in let w := w mod 7 in let v := pval c n in
+      Some (topt tepoch (epoch_previous (mk_epoch c n t) w),
+            match sweekday_tai t v with
+            | Some wd => let k := (wd - w - 1) mod 7 + 1 in
+                         let r := v - k * NS_PER_DAY in
+                         if negb (in_rangev r) then nospec
+                         else if (t =? 4) && negb (spec_delta_utc v =? spec_delta_utc r) then nospec
+                         else sdur r ++ [TZ t]
+            | None => nospec end)
+  | "wd_from_u8"%string, [TZ u] => Some ([TZ (weekday_from_u8 u)], [TZ (u mod 7)])
+  | "wd_from_i8"%string, [TZ i] => Some ([TZ (weekday_from_i8 i)], [TZ (i mod 7)])
+  | "wd_add"%string, [TZ x; TZ y] => Some (match weekday_add x y with Some z => [TZ z] | None => [TPanic] end, [TZ ((x + y) mod 7)])
+  | "wd_add_u8"%string, [TZ x; TZ y] => Some (match weekday_add_u8 x y with Some z => [TZ z] | None => [TPanic] end, [TZ ((x + y) mod 7)])
+  | "wd_sub_u8"%string, [TZ x; TZ y] => Some (match weekday_sub_u8 x y with Some z => [TZ z] | None => [TPanic] end, [TZ ((x - y) mod 7)])
+  | "wd_diff"%string, [TZ x; TZ y] => Some (tdur (weekday_sub x y), sdur (((y - x) mod 7) * NS_PER_DAY))
+  | "wd_c89"%string, [TZ x] => Some (match to_c89_weekday x with Some z => [TZ z] | None => [TPanic] end, [TZ ((x + 1) mod 7)])
+  | _, _ => None
+  end.
+
 Definition dispatch (name : string) (a : list tok) : option (list tok * list tok) :=
-  dispatch_duration name a.
+  match dispatch_duration name a with
+  | Some r => Some r
+  | None => match dispatch_epoch name a with
+            | Some r => Some r
+            | None => dispatch_calendar name a
+            end
+  end.
 
 (* decimal I/O helpers for the driver, so that the OCaml side needs no bignum code *)
 
